@@ -379,6 +379,38 @@ class World(object):
             i += 1
         return [t for t in self.threads if t.is_alive()]
 
+    def settle(self, timeout=60.0, quiet_ticks=6):
+        """Wait until every networking thread has ended ('done'), or the
+        case is quiescent: threads alive but nothing has happened on any
+        link for `quiet_ticks` consecutive idle polls of the client
+        ('idle' - the client is waiting for a silent server; deterministic
+        evidence, not a timer), or the harness guard expires ('timeout')."""
+        deadline = time.time() + timeout
+        last = None
+        stable = 0
+        while True:
+            if not any(t.is_alive() for t in self.threads
+                       if t.ident is not None) and \
+                    all(t.ident is not None for t in self.threads):
+                return 'done'
+            sig = (self.seq, sum(l.reads for l in self.links),
+                   len(self.threads))
+            idle = sum(l.idle for l in self.links)
+            if sig == last and idle > idle0 and not self.scheduler:
+                stable += 1
+                if stable >= quiet_ticks and idle - idle0 >= quiet_ticks:
+                    return 'idle'
+            else:
+                last, stable, idle0 = sig, 0, idle
+            if time.time() > deadline:
+                return 'timeout'
+            for t in self.threads:
+                if t.ident is not None and t.is_alive():
+                    t.join(0.03)       # returns at once when it ends
+                    break
+            else:
+                time.sleep(0.001)
+
     def kill_all(self):
         for l in self.links:
             with l.cond:
